@@ -65,7 +65,7 @@ package internal
 
 //@ func (*LocalConfigFile).Validate
 //@   requires wf: l != nil
-//@   modifies fields(addr(l.Config)), heap configv1.Filter.Type, heap oidcv1.OIDCConfig.Scopes, heap oidcv1.RedisConfig.ServerUri, above(watermark())
+//@   modifies fields(addr(l.Config)), heap configv1.Filter.Type, heap oidcv1.OIDCConfig.Scopes, heap oidcv1.RedisConfig.ServerUri, above(watermark()), ghost CloneMark
 //@   ensures  typed: result == nil ==> FiltersTyped(addr(l.Config))
 //@   loop 1 invariant wf: l != nil && WFConfig(addr(l.Config)) && CallbacksParse(addr(l.Config)) && addr(l.Config).Chains == $rangeslice1
 //@   loop 1 invariant noover: addr(l.Config).DefaultOidcConfig == nil ==> forall i int, j int :: 0 <= i && i <= rangeindex1 && 0 <= j && j < len(addr(l.Config).Chains[i].Filters) ==> addr(l.Config).Chains[i].Filters[j].GetOidcOverride() == nil
